@@ -1,6 +1,7 @@
 package main
 
 import (
+	"bytes"
 	"crypto/sha256"
 	"encoding/hex"
 	"fmt"
@@ -8,6 +9,7 @@ import (
 	"strconv"
 	"strings"
 
+	"github.com/fxamacker/cbor/v2"
 	"github.com/onflow/atree"
 	testutils "github.com/onflow/atree/test_utils"
 )
@@ -45,6 +47,7 @@ type World struct {
 	// what the caller knows after a crash: the roots it held at the last successful commit
 	savedRoots []savedRoot
 	NameOfVid  map[int]string // canonical value id -> handle name given by the history
+	RawIDs     bool           // cid() returns a function of the raw identifier instead of first-visit numbering
 }
 
 type savedRoot struct {
@@ -85,6 +88,7 @@ type ElemSpec struct {
 	New string `json:"new"` // "A" | "M": a new empty container is created and used as the value
 	Ref string `json:"ref"` // name of an existing (detached) container handle to attach
 	Vid int    `json:"vid"` // filled in by the harness: canonical value id of the container used as the value
+	Ti  string `json:"ti"`  // filled in by the harness: type info token of the container used as the value
 }
 
 // strLenForSize returns the string length whose CBOR text encoding takes sz bytes.
@@ -176,6 +180,10 @@ func (w *World) ViewIDs() []atree.SlabID {
 func (w *World) cid(id atree.SlabID) int {
 	if id == atree.SlabIDUndefined {
 		return 0
+	}
+	if w.RawIDs {
+		// multi-run comparisons: identifiers must not depend on the order in which slabs are first looked at
+		return int(id.AddressAsUint64()%1000)*1000000 + int(id.IndexAsUint64()%1000000)
 	}
 	if n, ok := w.canon[id]; ok {
 		return n
@@ -467,6 +475,7 @@ type AbsElem struct {
 	C   string    `json:"c"`
 	W   int       `json:"w"`
 	V   int       `json:"v"`
+	Ti  string    `json:"ti"`  // containers: type info token
 	Sub []AbsElem `json:"sub"` // array: elements; map: k0, v0, k1, v1, ... in iteration order
 }
 
@@ -490,10 +499,12 @@ func (w *World) absOfValue(v atree.Value) AbsElem {
 	case *atree.Array:
 		a.C = "A"
 		a.V = w.cid(atree.SlabID(valueIDToSlabID(x.ValueID())))
+		a.Ti = tiString(x.Type())
 		a.Sub = w.absArray(x)
 	case *atree.OrderedMap:
 		a.C = "M"
 		a.V = w.cid(atree.SlabID(valueIDToSlabID(x.ValueID())))
+		a.Ti = tiString(x.Type())
 		a.Sub = w.absMap(x)
 	default:
 		a.C = "other"
@@ -671,7 +682,50 @@ func (w *World) RegObs() []RegObs {
 	out := []RegObs{}
 	for _, id := range w.Ledger.SortedIDs() {
 		b := w.Ledger.Regs[id]
-		out = append(out, RegObs{Key: id.String(), ID: w.cid(id), Sum: shortSum(b), Len: len(b)})
+		r := RegObs{Key: id.String(), ID: w.cid(id), Sum: shortSum(b), Len: len(b)}
+		r.Root, _ = atree.IsRootOfAnObject(b)
+		r.Ptr, _ = atree.HasPointers(b)
+		r.Lim, _ = atree.HasSizeLimit(b)
+		if len(b) >= 2 {
+			// layout: 2-byte head, [extra data: one CBOR item, root only], [inlined extra data: one CBOR item, if flagged], body
+			r.HasNext = b[0]&0x02 != 0
+			hasInl := b[0]&0x01 != 0
+			typ := b[1] & 0x1f
+			r.IsData = typ == 0x00 || typ == 0x08 || typ == 0x0b
+			rest := b[2:]
+			skip := func(data []byte) int {
+				dec := cbor.NewStreamDecoder(bytes.NewBuffer(data))
+				raw, err := dec.DecodeRawBytes()
+				if err != nil {
+					return 0
+				}
+				return len(raw)
+			}
+			body := len(b)
+			if r.Root {
+				n := skip(rest)
+				body -= n
+				rest = rest[n:]
+			}
+			if hasInl {
+				n := skip(rest)
+				body -= n
+				r.Compact = bytes.Contains(rest[:n], []byte{0xd8, 0xf9})
+			}
+			r.Body = body
+		}
+		if s, err := atree.DecodeSlab(id, b, decMode(), testutils.DecodeStorable, decodeTypeInfo); err == nil {
+			r.Dsz = int(s.ByteSize())
+			if re, err := atree.EncodeSlab(s, encMode()); err == nil {
+				r.Reenc = bytes.Equal(re, b)
+			}
+		}
+		if s, ok := atree.VerifCache(w.St)[id]; ok && s != nil {
+			r.Msz = int(s.ByteSize())
+		} else if s, ok := atree.VerifDeltas(w.St)[id]; ok && s != nil {
+			r.Msz = int(s.ByteSize())
+		}
+		out = append(out, r)
 	}
 	return out
 }
